@@ -64,6 +64,8 @@ mut("tree-children-not-reversed", MAC, "        stack.extend(children.into_iter(
 mut("tree-marker-after-children", MAC, "        stack.push(Either::Right(NestingLevelMarker));\n        action_buffer.push(Action::Nest);\n        stack.extend(children.into_iter().map(Either::Left).rev());",
     "        action_buffer.push(Action::Nest);\n        stack.extend(children.into_iter().map(Either::Left).rev());\n        stack.push(Either::Right(NestingLevelMarker));", ["C15"])
 mut("tree-parent-no-assign", MAC, "                __node = __temp;\n", "", ["C15"], note="found by the automut campaign: the Parent template no longer moves the cursor up")
+mut("append-ignores-error", IDR, """        self.checked_append(new_child, arena)
+            .expect("Preconditions not met: invalid argument");""", """        let _ = self.checked_append(new_child, arena);""", ["C05"], note="the panicking wrapper swallows the refusal")
 mut("tree-prune-nest", MAC, ".map(|last| last.kind == ActionKind::Parent)", ".map(|last| last.kind == ActionKind::Parent || last.kind == ActionKind::Nest)", ["C15"],
     note="the useless-action pruning also drops a trailing Nest")
 mut("rf-tree-rename-cursor", MAC, "        let mut __node: ::indextree::NodeId = __root_node;", "        let mut __cur: ::indextree::NodeId = __root_node;", [], silent=True,
